@@ -59,8 +59,102 @@ ORDINAL_SATS = ["Additive_Borda_Sat", "Cardinality_Sat", "Cost_Sat"]
 SOLVER_SATS = {"Relative_Cost_Sat", "Additive_Cardinal_Relative_Sat"}
 
 
+# ----------------------------------------------------------------------------------------------
+# solver guard of this property.  pb.install_solver_guard() validates 0/1 models EXACTLY on the float
+# coefficients; the welfare ILP carries float images of rational data (fractional costs in the budget row,
+# the float `== opt_value` row), so a correct CBC answer can miss such a row by 1e-17 and would be
+# discarded as a fault (observed: 17 of 640 cases, all on constr(0)/constr(1) with fractional data).  This
+# guard re-validates EVERY optimize() answer (also inside the integer-cut loop) against every row with an
+# absolute tolerance of 1e-9 -- far below the gap between distinct values of the small rationals generated
+# here, so the float model and the exact model have the same feasible 0/1 points -- and checks OPTIMAL /
+# INFEASIBLE claims by enumerating all 0/1 points.  The final allocations are judged exactly, in Coq.
+# ----------------------------------------------------------------------------------------------
+GUARD = {"calls": 0, "faults": 0, "last_fault": None}
+_BITS = {}
+
+
+def _bits(n):
+    if n not in _BITS:
+        _BITS[n] = list(itertools.product((0.0, 1.0), repeat=n))
+    return _BITS[n]
+
+
+def install_guard(tol=1e-9, max_vars=12):
+    import mip
+
+    if getattr(mip.Model, "_c04_guard", False):
+        return
+    orig = mip.Model.optimize
+
+    def lin(expr, pos):
+        co = [0.0] * len(pos)
+        for v, c in expr.expr.items():
+            co[pos[v.idx]] += float(c)
+        return co, float(expr.const), expr.sense
+
+    def bad(row, x):
+        co, const, sense = row
+        s = const
+        for c, v in zip(co, x):
+            if v:
+                s += c
+        if sense == "<":
+            return s > tol
+        if sense == ">":
+            return s < -tol
+        return abs(s) > tol
+
+    def guard(self, *a, **k):
+        GUARD["calls"] += 1
+        st = orig(self, *a, **k)
+        try:
+            vars_ = list(self.vars)
+            if not vars_ or any(v.var_type != mip.BINARY for v in vars_) or len(vars_) > max_vars:
+                return st
+            pos = {v.idx: i for i, v in enumerate(vars_)}
+            rows = [lin(c.expr, pos) for c in self.constrs]
+            fault = None
+            if st in (mip.OptimizationStatus.OPTIMAL, mip.OptimizationStatus.FEASIBLE):
+                x = []
+                for v in vars_:
+                    if v.x is None or abs(v.x - round(v.x)) > 1e-6:
+                        fault = "no/non-integral value for " + v.name
+                        break
+                    x.append(float(round(v.x)))
+                if fault is None:
+                    for r, c in zip(rows, self.constrs):
+                        if bad(r, x):
+                            fault = "row violated: " + str(c.name)
+                            break
+                if fault is None and st == mip.OptimizationStatus.OPTIMAL:
+                    oc, _, _ = lin(self.objective, pos)
+                    sgn = 1.0 if self.sense == mip.MAXIMIZE else -1.0
+                    cur = sum(c for c, v in zip(oc, x) if v)
+                    for y in _bits(len(vars_)):
+                        if sgn * (sum(c for c, v in zip(oc, y) if v) - cur) > tol and not any(bad(r, y) for r in rows):
+                            fault = "sub-optimal answer reported OPTIMAL"
+                            break
+            elif st == mip.OptimizationStatus.INFEASIBLE:
+                for y in _bits(len(vars_)):
+                    if not any(bad(r, y) for r in rows):
+                        fault = "INFEASIBLE reported for a feasible model"
+                        break
+            else:
+                fault = "status " + str(st)
+            if fault:
+                GUARD["faults"] += 1
+                GUARD["last_fault"] = fault
+        except Exception as e:  # the guard itself must never change behaviour
+            GUARD["faults"] += 1
+            GUARD["last_fault"] = "guard error " + repr(e)
+        return st
+
+    mip.Model.optimize = guard
+    mip.Model._c04_guard = True
+
+
 def budget(tier):
-    return 640 if tier == "quick" else 16000
+    return 2400 if tier == "quick" else 24000
 
 
 def _subset_sum(rng, vals):
@@ -77,6 +171,14 @@ def gen(rng, i, tier):
     kind = rng.choice(["approval"] * 5 + ["cardinal", "cardinal", "cumulative", "ordinal"])
     sat = rng.choice({"approval": APPROVAL_SATS, "cardinal": CARDINAL_SATS, "cumulative": CARDINAL_SATS,
                       "ordinal": ORDINAL_SATS}[kind])
+    hard = i % 4 == 3
+    if hard:
+        # knapsacks whose profits are not correlated with the costs: the search improves its incumbent several
+        # times and through both branches, which is what exercises a_star/b_star/x and the reconstruction loop
+        n = rng.randrange(5, nmax + 1)
+        den = rng.choice([1, 1, 2, 3, 6])
+        costs = [Fraction(rng.randrange(2, 16), den) for _ in range(n)]
+        kind, sat = "cardinal", rng.choice(["Additive_Cardinal_Sat", "Additive_Cardinal_Sat", "Additive_Cardinal_Relative_Sat"])
     if all(c == 0 for c in costs) and (algo != 0 or sat in SOLVER_SATS):
         costs[rng.randrange(n)] = Fraction(1)  # an all-zero knapsack row aborts CBC (excluded by the property)
     tot = sum(costs, Fraction(0))
@@ -98,6 +200,13 @@ def gen(rng, i, tier):
         b = Fraction(1)
     nv = rng.choice([0, 1, 2, 3, 3, 4, 5])
     ballots = []
+    if hard:
+        sden = rng.choice([1, 1, 2, 3])
+        for _ in range(rng.choice([1, 1, 2, 3])):
+            ballots.append({str(j): pb.qs(Fraction(rng.randrange(0, 10), sden)) for j in range(n) if rng.random() < 0.85})
+        nv = 0
+        if rng.random() < 0.5:
+            b = tot * Fraction(rng.randrange(2, 7), 8)
     for _ in range(nv):
         style = rng.randrange(6)
         if style == 0:
@@ -123,6 +232,13 @@ def gen(rng, i, tier):
                 ballots.append({str(j): pb.qs(Fraction(x, s)) for j, x in zip(appr, w)})
             else:
                 ballots.append({})
+    if sat == "Relative_Cost_Sat":
+        # its normaliser solves a knapsack over the ballot: an all-zero row aborts CBC (excluded by the property)
+        posj = [j for j in range(n) if costs[j] > 0]
+        for bl in ballots:
+            if bl and all(costs[j] == 0 for j in bl):
+                bl.append(rng.choice(posj))
+                bl.sort()
     # a feasible initial allocation
     init = []
     if rng.random() < 0.4:
@@ -154,15 +270,16 @@ def impl(case):
     inst, projs = pb.make_instance(case["costs"], case["budget"], case["order"])
     prof = pb.make_profile(case["kind"], inst, projs, case["ballots"], case["multi"])
     sat_class = getattr(el, case["sat"])
+    import time
+    t0 = time.time()
     if case.get("solver"):
-        pb.install_solver_guard()
-        pb.solver_reset()
+        install_guard()
+        GUARD.update(calls=0, faults=0, last_fault=None)
     out = {}
     sp = prof.as_sat_profile(sat_class)
     out["score"] = [core.qj(sp.total_satisfaction_project(projs[j])) for j in range(n)]
-    st = pb.solver_state() if case.get("solver") else None
-    if st and st["faults"]:
-        out["solver_fault"] = st["last_fault"]
+    if case.get("solver") and GUARD["faults"]:
+        out["solver_fault"] = GUARD["last_fault"]
         return out
     out["enum"] = pb.ranks(list(inst))
     init = [projs[j] for j in case["init"]]
@@ -176,10 +293,10 @@ def impl(case):
     else:
         out["out"] = [pb.ranks(res)]
     if case.get("solver"):
-        st = pb.solver_state()
-        out["solver_calls"] = st["calls"]
-        if st["faults"]:
-            out["solver_fault"] = st["last_fault"]
+        out["solver_calls"] = GUARD["calls"]
+        if GUARD["faults"]:
+            out["solver_fault"] = GUARD["last_fault"]
+    out["t"] = round(time.time() - t0, 3)
     return out
 
 
